@@ -756,11 +756,14 @@ send_response:
 
 	if (res == 0) {
 		qb_ipcs_connection_ref(c);
+		/*
+		 * From now on the application knows the connection: if it
+		 * disconnects it from inside connection_created() it must
+		 * get connection_closed() like for any other connection.
+		 */
+		c->state = QB_IPCS_CONNECTION_ESTABLISHED;
 		if (s->serv_fns.connection_created) {
 			s->serv_fns.connection_created(c);
-		}
-		if (c->state == QB_IPCS_CONNECTION_ACTIVE) {
-			c->state = QB_IPCS_CONNECTION_ESTABLISHED;
 		}
 		qb_ipcs_connection_unref(c);
 	} else {
